@@ -7,15 +7,18 @@ U = z3.RealVal(1) / z3.RealVal(2 ** 53)
 QMAX = 2 ** 20
 
 
-def steps_spec(ip, q, got, prefix):
+def steps_spec(ip, q, got, prefix, offset=None):
     """Steps(start,end,dt) for the exact rational quotient q >= 0:
        must be rnd(q) when q is a grid point up to rounding, floor(q) when clearly off-grid,
        either in the don't-care band in between."""
     m = round_half_even(q)
     dist = z3.If(q >= z3.ToReal(m), q - z3.ToReal(m), z3.ToReal(m) - q)
     qq = z3.If(q > 1, q, z3.RealVal(1))
-    ip.prove(prefix + '/grid-point-included', z3.Implies(dist <= 8 * U * qq, got == m))
-    ip.prove(prefix + '/off-grid-floor', z3.Implies(dist >= z3.RealVal('1/1000000'), got == z3.ToInt(q)))
+    # "a grid point up to floating-point rounding": the end time as written (a literal, or start + m*dt computed by the caller) is rounded
+    # to a double, an error of up to U*|end| in time = U*|end|/dt in steps, on top of the rounding of the quotient itself
+    off = offset if offset is not None else z3.RealVal(0)          # (|start| + |end|) / dt
+    ip.prove(prefix + '/grid-point-included', z3.Implies(dist <= 8 * U * qq + 2 * U * off, got == m))
+    ip.prove(prefix + '/off-grid-floor', z3.Implies(dist >= z3.RealVal('1/1000000') + 64 * U * off, got == z3.ToInt(q)))
     ip.prove(prefix + '/one-of-both', z3.Or(got == m, got == z3.ToInt(q)))
 
 
@@ -34,7 +37,10 @@ def scen_num_step(cls):
         ip.assume(z3.And(dt > 0, q >= 0, q <= QMAX, start_step >= 0),
                   'requires dt > 0, end >= start, (end-start)/dt <= 2^20')
         end = start + q * dt      # any real end >= start (superset of the doubles)
-        return {'args': [self_, start_step, end], 'q': q, 'start_step': start_step,
+        absv0 = lambda x: z3.If(x >= 0, x, -x)
+        ip.assume((absv0(start) + absv0(end)) <= dt * 2 ** 40, 'requires (|start| + |end|)/dt <= 2^40: beyond that doubles do not resolve the grid')
+        absv = lambda x: z3.If(x >= 0, x, -x)
+        return {'args': [self_, start_step, end], 'q': q, 'start_step': start_step, 'offset': (absv(start) + absv(end)) / dt,
                 'inputs': {'start_time': start, 'dt': dt, 'q': q, 'start_step': start_step}}
     return scen
 
@@ -50,7 +56,7 @@ def post_num_step(ip, ctx, out):
     # read Steps off the result where it is observable (start_step = 0 covers everything)
     ip.prove('grid/num-step-nonneg', r >= 0)
     if ip.decide(ss == 0, 'start0'):
-        steps_spec(ip, q, r, 'grid/steps')
+        steps_spec(ip, q, r, 'grid/steps', offset=ctx.get('offset'))
 
 
 def replay_steps(ob):
